@@ -145,8 +145,16 @@ func MatchFunctionsByTopology(oldResults, newResults []FingerprintResult, thresh
 		}
 
 		// Use sort.SliceStable for deterministic ordering.
+		// Among candidates of equal similarity prefer a pair whose fingerprints are identical:
+		// for several same-shape functions that is the only evidence of which one was renamed.
+		sameFP := func(c candidate) bool {
+			return unmatchedOld[c.oldIdx].Fingerprint == unmatchedNew[c.newIdx].Fingerprint
+		}
 		sort.SliceStable(candidates, func(i, j int) bool {
-			return candidates[i].sim > candidates[j].sim
+			if candidates[i].sim != candidates[j].sim {
+				return candidates[i].sim > candidates[j].sim
+			}
+			return sameFP(candidates[i]) && !sameFP(candidates[j])
 		})
 
 		usedOld := make(map[int]bool)
